@@ -182,3 +182,17 @@ package routing
 //@   loop * havoc
 //@   site call getEdge: domain arg(nextOutFee) <= 1<<62
 //@   site call newNodeEdgeUnifier: assert arg(sourceNode) == self && arg(toNode) == pivot && arg(useInboundFees) == !isExitHop && arg(outChanRestr) == outgoingChanMap
+//@
+//@ // ---- QueryRoutes: the search runs with OUR node as self (its channels get the local rules: live bandwidth, disabled flag ignored) and
+//@ // ---- the requested node as source; every request field reaches the search and the route construction unchanged
+//@ func (r *ChannelRouter) FindRoute
+//@   props C19
+//@   loop * havoc
+//@   site call newBandwidthManager: assert arg(1) == r.cfg.SelfNode
+//@   site call findPath as self-and-source: assert arg(3) == r.cfg.SelfNode && arg(4) == req.Source && arg(5) == req.Target
+//@   site call findPath as request-fields: assert arg(1) == req.Restrictions && arg(2) == addr(r.cfg.PathFindingConfig) && arg(6) == req.Amount
+//@   site call findPath as expiry-from-the-tip: assert retn(GetBestBlock, 2) == nil && arg(8) == swrap(retn(GetBestBlock, 1) + swrap(req.FinalExpiry, 32), 32)
+//@   site call findPath as hints: assert arg(0).additionalEdges == req.RouteHints && arg(0).bandwidthHints == retn(newBandwidthManager, 0) && retn(newBandwidthManager, 1) == nil
+//@   site call newRoute as newroute-domain: domain arg(blindedPathSet) == nil && forallq(k, 0, len(arg(pathEdges)), arg(pathEdges)[k] != nil && arg(pathEdges)[k].policy != nil)
+//@   site call newRoute as route-from-the-path-found: assert arg(0) == req.Source && arg(1) == retn(findPath, 0) && retn(findPath, 2) == nil
+//@   site call newRoute as final-hop-from-the-request: assert arg(3).amt == req.Amount && arg(3).totalAmt == req.Amount && arg(3).cltvDelta == req.FinalExpiry
